@@ -231,7 +231,9 @@ CLAIMED = {
         "correct-rounding theorems (<= 800 significant digits, digits + exponent <= 400, last digit >= 10^-400, value zero or "
         ">= 2^-1078) the token is REJECTED exactly on a true overflow (value >= DBL_MAX + half an ulp) and otherwise stored "
         "as the finite double with the lexeme's sign that is the round-half-even image of the denoted decimal on the 53-bit / "
-        "denormal grid, no double being nearer; digit-free lexemes (\".\", \"-.e5\") are +0.0.",
+        "denormal grid, no double being nearer; digit-free lexemes (\".\", \"-.e5\") are +0.0. "
+        "C08_float_pattern_is_lexeme (FloatLexemeRegex.v): the words of the documented float pattern p_float (what the "
+        "compiled scanner matches, C18) are exactly those lexemes, in both directions.",
    note="PARTIAL for the float clause: that glibc strtod is correctly rounded is a libc contract in the trusted base, "
         "validated differentially on every run, not proved. The link lexeme -> rule is C18.",
    technique="Coq proof (unfolding the saturating/erroring digit folds against positional value, arithmetic by lia) + correspondence",
@@ -276,7 +278,14 @@ CLAIMED = {
         "(only __libconfig_fatal_error_func is written, only by libconfig_set_fatal_error_func) and by the reentrant "
         "scanner / pure parser flags read from scanner.c. No memory model: data races inside calls and in libc are "
         "observed by a ThreadSanitizer build running 2..16 threads that read with @include, query, modify, write and "
-        "re-read their own objects, each iteration's results compared with the serial run.",
+        "re-read their own objects (floats with renderings longer than the writer's 64-byte buffer included), each "
+        "iteration's results compared with the serial run. Finer than whole calls (ThreadLocale.v, ThreadLocaleFacts.v): N "
+        "threads, micro-steps Enter (newlocale + uselocale on the calling thread, shared identity counter, newlocale may "
+        "fail) / Run (the body under the radix in effect for that thread) / Leave, any schedule: "
+        "C14_locale_interleaving(_prefix) (results, radix log, data, thread locale and global locale of every thread = "
+        "its program alone), C14_bodies_run_under_dot, C14_locale_restored (locales restored, created objects freed "
+        "exactly once, at every quiescent point), and C14_global_switch_refuted (a process-wide setlocale switch is "
+        "refuted by a two-thread schedule).",
    note="config_set_fatal_error_func (called by every C++ Config constructor) writes the one process-wide pointer and "
         "is outside the statement, as the property's 'own configuration objects' wording implies.",
    technique="Coq proof (frame/non-interference by induction over schedules) + translator census + TSan run (partial)",
@@ -324,7 +333,12 @@ CLAIMED = {
         "switching for includes (Lexer.v gives each file its own buffer); the skeleton model is a hand transcription of "
         "generated code, tied on every run: each token kind is slid across the 8/16/24/32 KiB positions and the text read "
         "through config_read_string, fmemopen, cookie streams delivering 1..8193-byte pieces, and config_read_file; outcomes "
-        "compared pairwise and with the model, including an @include followed by more than one read block.",
+        "compared pairwise and with the model, including an @include followed by more than one read block, and texts of "
+        "exactly 512 ... 65536 bytes (BUFSIZ, page, read block, scanner buffer, one less / more) whose last byte is "
+        "significant. C20_skeleton_text_as_transcribed: the buffer functions of scanner.c (yy_get_next_buffer, "
+        "yy_get_previous_state, yy_try_NUL_trans, yyrestart, buffer creation / switching / scan functions, YY_INPUT, the "
+        "end-of-buffer action and the matching loop) are token for token the text FlexBuf.v / FlexEngine.v were "
+        "transcribed from (tools/skel_ref/flex_skeleton.json, compared by gen_tables.py on every run).",
    note="NUL-free inputs at the API level, as the property states (config_read_string stops at a NUL by construction); the buffer theorems hold for any bytes.",
    technique="Coq proof (invariant of the buffer state and simulation of the refilling matcher by flex_match over all streams and buffer sizes; chunk-composition lemma) + sliding-offset correspondence",
    ref="5 (C20)"),
@@ -339,7 +353,14 @@ CLAIMED = {
         "failure, success), the events of a read that returns, followed by the unwinding, are well bracketed and leave "
         "nothing open; config_read_file adds its own balanced open/close. Tied to /repo by comparing the real "
         "fopen/fclose trace (--wrap) event for event with the model on include forests with every fault kind injected at "
-        "every file, plus fd counting, the caller's stream check, ASan and LeakSanitizer.",
+        "every file, plus fd counting, the caller's stream check, ASan and LeakSanitizer. File names (FileNames.v): "
+        "files_valid = every setting's file and the error file are elements of the vector owning the strings "
+        "(config->filenames); C11_read_names_valid (any read, any failure point, from any configuration), "
+        "C11_names_monotone (the vector only grows along the token stream and owns every token's file), "
+        "C11_api_keeps_names_valid, C11_names_valid_in_every_history (every history of reads, writes and API calls; the "
+        "error file excepted after a config_clear made while it is set - the property promises validity only until "
+        "the configuration is cleared; witness C11_names_examples). Tied to /repo by pointer identity: every dump of "
+        "the harness checks that each setting's file pointer and the error file pointer are elements of config->filenames.",
    note="Heap leaks and validity of handed-out file-name strings are pointer-level (LSan/ASan only). That a successful "
         "parse has read the end-of-input token (so nothing is left to unwind) is a parser fact not proved; the model "
         "unwinds after the last token read in both cases and the traces are compared.",
